@@ -1,4 +1,5 @@
 import NettyVerif.Proofs.ChanClose
+import NettyVerif.Proofs.Life
 /-! # C05 — Channel lifecycle (Close election part)
 
 Over the Chan LTS, for any number of concurrent Close calls (each is a `closeCas` action; the
@@ -60,9 +61,58 @@ theorem C05_close_order (sync : Bool) (cap : Nat) (untilW : Bool) (acts : List (
       | cancel => obtain ⟨a, b, c⟩ := hci.cancelPh hc; simp [a, b]
       | fire => obtain ⟨a, b, c⟩ := hci.firePh hc; simp [a, b]
 
+/-! ## the read-loop half: what every accepted sequence of lifecycle events satisfies
+
+`Life` is an acceptor whose actions are the observable events of one served channel; a guard
+states when the code can produce the event (Model/Life.lean). The tie checks that every event
+sequence of the real channel is accepted. -/
+open NettyVerif.Life in
+/-- **active once and first; reads one at a time; closed and inactive exactly once** — for every
+    accepted event sequence: the active event is fired at most once; the channel is handed out and
+    reads are delivered only after it completed; at most one read is in flight; the transport is
+    closed at most once, only after some Close won; the context is cancelled only after the
+    transport was closed; inactive is delivered at most once, after the context was cancelled, and
+    carries the error of the Close call that took effect; when that call has returned, transport
+    closed, context cancelled and inactive delivered are all true; the read loop leaves only with
+    its context cancelled and no read in flight -/
+theorem C05_lifecycle (es : List Life.Ev) (s : Life.St) (hr : Life.run {} es = some s) :
+    s.activeBegun ≤ 1 ∧ (s.handedOut = true → s.activeEnded = true) ∧ (s.readsBegun > 0 → s.activeEnded = true) ∧
+    (s.readsBegun = s.readsEnded ∨ s.readsBegun = s.readsEnded + 1) ∧
+    s.trCloses ≤ 1 ∧ (s.trCloses = 1 → s.winner.isSome = true) ∧ (s.ctxDone = true → s.trCloses = 1) ∧
+    s.inactives.length ≤ 1 ∧ (∀ e, e ∈ s.inactives → s.winner = some e ∧ s.ctxDone = true) ∧
+    (s.winnerReturned = true → s.inactives.length = 1 ∧ s.ctxDone = true ∧ s.trCloses = 1) ∧
+    (s.loopExited = true → s.ctxDone = true ∧ s.inRead = false) := by
+  have h := Life.inv_run es {} s Life.inv_init hr
+  refine ⟨h.activeOnce, h.handAfterActive, h.readAfterActive, ?_, h.trOnce, h.trNeedsWinner, h.ctxNeedsTr, h.inactiveOnce,
+    h.inactiveWinner, ?_, h.exitNeedsCtx⟩
+  · have := h.oneAtATime; split at this <;> omega
+  · intro hw
+    obtain ⟨a, b, c⟩ := h.retDone hw
+    refine ⟨?_, b, c⟩
+    have := h.inactiveOnce
+    cases hi : s.inactives with
+    | nil => exact absurd hi a
+    | cons x xs => rw [hi] at this; simp at this ⊢; exact this
+
+/-- what the acceptor refuses (so a channel doing it is reported by the tie): handing the channel out
+    before the active event completed, a second active event, a read while another is in flight, a
+    second transport close, an inactive event with another error than the winner's, leaving the
+    read loop with a live context -/
+theorem C05_lifecycle_refuses :
+    Life.run {} [.activeBegin, .handOut] = none ∧
+    Life.run {} [.activeBegin, .activeEnd, .activeBegin] = none ∧
+    Life.run {} [.activeBegin, .activeEnd, .readBegin, .readBegin] = none ∧
+    Life.run {} [.activeBegin, .activeEnd, .closeWin 1, .closeTr, .closeTr] = none ∧
+    Life.run {} [.activeBegin, .activeEnd, .closeWin 1, .closeTr, .closeCancel, .inactive 2] = none ∧
+    Life.run {} [.activeBegin, .activeEnd, .loopExit] = none ∧
+    (Life.run {} [.activeBegin, .activeEnd, .handOut, .readBegin, .closeWin 1, .closeTr, .readEnd false, .closeCancel, .inactive 1,
+      .closeRet true, .loopExit, .closeRet false]).isSome = true := by decide
+
 end NettyVerif.C05
 
 #print axioms NettyVerif.C05.C05_close_once
 #print axioms NettyVerif.C05.C05_single_winner
 #print axioms NettyVerif.C05.C05_closed_after_any_close
 #print axioms NettyVerif.C05.C05_close_order
+#print axioms NettyVerif.C05.C05_lifecycle
+#print axioms NettyVerif.C05.C05_lifecycle_refuses
